@@ -237,9 +237,33 @@ theorem connectRaw_shrinks (db : DB) : Shrinks db db.connectRaw := by
 
 /-! ### preservation through the Connection functions -/
 
+/-- `_previous_nested` always points to an older handle, and the current savepoint exists -/
+structure PrevWF (c : Conn) : Prop where
+  prev : ∀ h p, (c.txn h).prev = some p → p < h
+  nested : ∀ n, c.nested = some n → n < c.txns.length
+
+/-- structural well-formedness of the handle table -/
+def WFc (c : Conn) : Prop := RootPtr c ∧ PrevWF c
+
+theorem wfc_congr {c c' : Conn} (h1 : c'.txns = c.txns) (h2 : c'.transaction = c.transaction)
+    (h3 : c'.nested = c.nested) (hw : WFc c) : WFc c' := by
+  have htx : ∀ x, c'.txn x = c.txn x := fun x => by simp [Conn.txn, h1]
+  refine ⟨fun t ht => ?_, ⟨fun h p hx => ?_, fun n hn => ?_⟩⟩
+  · rw [htx]; exact hw.1 t (by rw [← h2]; exact ht)
+  · rw [htx] at hx; exact hw.2.prev h p hx
+  · rw [h1]; exact hw.2.nested n (by rw [← h3]; exact hn)
+
 structure Pres (c c' : Conn) : Prop where
-  root : RootPtr c → RootPtr c'
+  root : WFc c → WFc c'
   db : Shrinks c.db c'.db
+
+theorem wfc_empty {c : Conn} (h1 : c.txns = []) (h2 : c.transaction = none) (h3 : c.nested = none) :
+    WFc c := by
+  refine ⟨fun t ht => ?_, ⟨fun h p hx => ?_, fun n hn => ?_⟩⟩
+  · rw [h2] at ht; cases ht
+  · have : c.txn h = default := by simp [Conn.txn, h1]
+    rw [this] at hx; cases hx
+  · rw [h3] at hn; cases hn
 
 theorem Pres.refl (c : Conn) : Pres c c := ⟨id, Shrinks.refl _⟩
 theorem Pres.trans {a b c : Conn} (h1 : Pres a b) (h2 : Pres b c) : Pres a c :=
@@ -255,9 +279,9 @@ theorem txn_isRoot_lt {c : Conn} {t : Nat} (h : (c.txn t).isRoot = true) : t < c
 
 /-- only the database changes -/
 theorem pres_db (c : Conn) (db' : DB) (h : Shrinks c.db db') : Pres c { c with db := db' } :=
-  ⟨fun hr => hr, h⟩
+  ⟨wfc_congr rfl rfl rfl, h⟩
 
-theorem pres_warn (c : Conn) : Pres c c.warn := ⟨fun hr => hr, Shrinks.refl _⟩
+theorem pres_warn (c : Conn) : Pres c c.warn := ⟨wfc_congr rfl rfl rfl, Shrinks.refl _⟩
 
 /-- a per-handle update that keeps `isRoot` -/
 theorem setTxn_isRoot (c : Conn) (h : Nat) (f : Txn → Txn) (hf : ∀ t, (f t).isRoot = t.isRoot)
@@ -270,35 +294,76 @@ theorem setTxn_isRoot (c : Conn) (h : Nat) (f : Txn → Txn) (hf : ∀ t, (f t).
       simp [Conn.setTxn, Conn.txn, List.getD_eq_getElem?_getD, this]
   · rw [setTxn_txn_ne _ _ _ _ e]
 
-theorem pres_setTxn (c : Conn) (h : Nat) (f : Txn → Txn) (hf : ∀ t, (f t).isRoot = t.isRoot) :
+theorem setTxn_prev (c : Conn) (h : Nat) (f : Txn → Txn) (hf : ∀ t, (f t).prev = t.prev)
+    (x : Nat) : ((c.setTxn h f).txn x).prev = (c.txn x).prev := by
+  by_cases e : h = x
+  · subst e
+    by_cases hh : h < c.txns.length
+    · rw [setTxn_txn_eq _ _ _ hh, hf]
+    · have : c.txns[h]? = none := by simp; omega
+      simp [Conn.setTxn, Conn.txn, List.getD_eq_getElem?_getD, this]
+  · rw [setTxn_txn_ne _ _ _ _ e]
+
+theorem pres_setTxn (c : Conn) (h : Nat) (f : Txn → Txn) (hf : ∀ t, (f t).isRoot = t.isRoot)
+    (hp : ∀ t, (f t).prev = t.prev) :
     Pres c (c.setTxn h f) :=
-  ⟨fun hr t ht => by rw [setTxn_isRoot _ _ _ hf]; exact hr t ht, Shrinks.refl _⟩
+  ⟨fun hw => ⟨fun t ht => by rw [setTxn_isRoot _ _ _ hf]; exact hw.1 t ht,
+     ⟨fun x p hx => by rw [setTxn_prev _ _ _ hp] at hx; exact hw.2.prev x p hx,
+      fun n hn => by rw [setTxn_length]; exact hw.2.nested n hn⟩⟩, Shrinks.refl _⟩
 
 theorem pres_deactivate (c : Conn) (h : Nat) : Pres c (c.deactivate h) :=
-  pres_setTxn c h _ (fun _ => rfl)
+  pres_setTxn c h _ (fun _ => rfl) (fun _ => rfl)
 
 theorem pres_detach (c : Conn) : Pres c { c with transaction := none } :=
-  ⟨fun _ t ht => (by cases ht), Shrinks.refl _⟩
+  ⟨fun hw => ⟨fun t ht => (by cases ht), ⟨hw.2.prev, hw.2.nested⟩⟩, Shrinks.refl _⟩
 
-theorem pres_setNested (c : Conn) (o : Option Nat) : Pres c { c with nested := o } :=
-  ⟨fun hr => hr, Shrinks.refl _⟩
+/-- `_nested_transaction = self._previous_nested` for the current savepoint `h` -/
+theorem pres_popNested (c : Conn) (h : Nat) (hn : c.nested = some h) :
+    Pres c { c with nested := (c.txn h).prev } :=
+  ⟨fun hw => ⟨hw.1, ⟨hw.2.prev, fun n hx => by
+      have h1 := hw.2.prev h n hx
+      have h2 := hw.2.nested h hn
+      show n < c.txns.length
+      omega⟩⟩, Shrinks.refl _⟩
 
 theorem pres_setCtx (c : Conn) (o : Option Nat) : Pres c { c with ctxMgr := o } :=
-  ⟨fun hr => hr, Shrinks.refl _⟩
+  ⟨wfc_congr rfl rfl rfl, Shrinks.refl _⟩
+
+theorem txn_ge_default (c : Conn) (x : Nat) (hx : c.txns.length ≤ x) : c.txn x = default := by
+  have : c.txns[x]? = none := by simp; omega
+  simp [Conn.txn, List.getD_eq_getElem?_getD, this]
+
+/-- appending a handle whose `_previous_nested` is an existing handle keeps `PrevWF.prev` -/
+theorem append_prev {c : Conn} (t : Txn) (hw : PrevWF c) (ht : ∀ p, t.prev = some p → p < c.txns.length) :
+    ∀ h p, (({ c with txns := c.txns ++ [t] } : Conn).txn h).prev = some p → p < h := by
+  intro h p hx
+  rcases Nat.lt_trichotomy h c.txns.length with hl | hl | hl
+  · rw [txn_append_lt c t h hl] at hx; exact hw.prev h p hx
+  · subst hl; rw [txn_append_new c t] at hx; exact ht p hx
+  · have : ({ c with txns := c.txns ++ [t] } : Conn).txn h = default :=
+      txn_ge_default _ h (by simp; omega)
+    rw [this] at hx; cases hx
 
 theorem pres_pushRoot (c : Conn) : Pres c c.pushRoot where
-  root := fun _ t ht => by
-    have : t = c.txns.length := by simp [Conn.pushRoot] at ht; exact ht.symm
-    subst this
-    rw [show c.pushRoot.txn c.txns.length = _ from txn_append_new c _]
+  root := fun hw => ⟨fun t ht => by
+      have : t = c.txns.length := by simp [Conn.pushRoot] at ht; exact ht.symm
+      subst this
+      rw [show c.pushRoot.txn c.txns.length = _ from txn_append_new c _],
+    ⟨append_prev _ hw.2 (fun p hp => by cases hp), fun n hn => by
+      have := hw.2.nested n hn
+      simp [Conn.pushRoot]; omega⟩⟩
   db := Shrinks.refl _
 
 theorem pres_pushNested (c : Conn) : Pres c c.pushNested where
-  root := fun hr t ht => by
-    have ht' : c.transaction = some t := ht
-    have := hr t ht'
-    rw [show c.pushNested.txn t = c.txn t from txn_append_lt c _ t (txn_isRoot_lt this)]
-    exact this
+  root := fun hw => ⟨fun t ht => by
+      have ht' : c.transaction = some t := ht
+      have := hw.1 t ht'
+      rw [show c.pushNested.txn t = c.txn t from txn_append_lt c _ t (txn_isRoot_lt this)]
+      exact this,
+    ⟨append_prev _ hw.2 (fun p hp => hw.2.nested p hp), fun n hn => by
+      have : n = c.txns.length := by simp [Conn.pushNested] at hn; exact hn.symm
+      subst this
+      simp [Conn.pushNested]⟩⟩
   db := Shrinks.refl _
 
 theorem andThen_pres {c : Conn} {x : Conn × Res} {f : Conn → Conn × Res}
@@ -315,7 +380,7 @@ theorem revalidate_pres (c : Conn) : Pres c c.revalidate.1 := by
   split
   · split
     · exact Pres.refl c
-    · exact ⟨fun hr => hr, checkout_shrinks c.db⟩
+    · exact ⟨wfc_congr rfl rfl rfl, checkout_shrinks c.db⟩
   · exact Pres.refl c
 
 theorem connProp_pres (c : Conn) : Pres c c.connProp.1 := by
@@ -328,7 +393,7 @@ theorem onDisconnect_pres (c : Conn) : Pres c c.onDisconnect := by
   unfold Conn.onDisconnect
   split
   · exact Pres.refl c
-  · exact ⟨fun hr => hr, (poolInvalidate_shrinks c.db).trans (kill_shrinks _)⟩
+  · exact ⟨wfc_congr rfl rfl rfl, (poolInvalidate_shrinks c.db).trans (kill_shrinks _)⟩
 
 theorem invalidate_pres (c : Conn) : Pres c c.invalidate.1 := by
   unfold Conn.invalidate
@@ -336,7 +401,7 @@ theorem invalidate_pres (c : Conn) : Pres c c.invalidate.1 := by
   · exact Pres.refl c
   · split
     · exact Pres.refl c
-    · exact ⟨fun hr => hr, kill_shrinks _⟩
+    · exact ⟨wfc_congr rfl rfl rfl, kill_shrinks _⟩
 
 theorem beginRoot_pres (c : Conn) : Pres c c.beginRoot.1 := by
   unfold Conn.beginRoot
@@ -362,7 +427,7 @@ theorem discError_pres (c : Conn) : Pres c c.discError.1 := by
   · simp only []
     split
     · exact Pres.refl c
-    · exact ⟨fun hr => hr, kill_shrinks _⟩
+    · exact ⟨wfc_congr rfl rfl rfl, kill_shrinks _⟩
   · exact onDisconnect_pres c
 
 theorem plainError_pres (c : Conn) : Pres c c.plainError.1 := by
@@ -431,7 +496,8 @@ theorem execute_pres (c : Conn) (q : Sql) : Pres c (c.execute q).1 := by
 theorem nestedDeactivate_pres (c : Conn) (h : Nat) (w : Bool) : Pres c (c.nestedDeactivate h w) := by
   unfold Conn.nestedDeactivate
   split
-  · exact pres_setNested c _
+  · rename_i hn
+    exact pres_popNested c h (by simpa using hn)
   · split
     · exact pres_warn c
     · exact Pres.refl c
@@ -526,7 +592,7 @@ theorem beginNested_pres (c : Conn) : Pres c c.beginNested.1 := by
   split
   · exact Pres.refl c1
   · simp only []
-    have h0 : Pres c1 { c1 with spSeq := c1.spSeq + 1 } := ⟨fun hr => hr, Shrinks.refl _⟩
+    have h0 : Pres c1 { c1 with spSeq := c1.spSeq + 1 } := ⟨wfc_congr rfl rfl rfl, Shrinks.refl _⟩
     exact h0.trans (andThen_pres (execute_pres _ _) (fun c2 => pres_pushNested c2))
 
 theorem tCommit_pres (c : Conn) (h : Nat) : Pres c (c.tCommit h).1 := by
@@ -561,7 +627,7 @@ theorem rollback_pres (c : Conn) : Pres c c.rollback.1 := by
 
 theorem enter_pres (c : Conn) (h : Nat) : Pres c (c.enter h).1 := by
   unfold Conn.enter
-  exact (pres_setTxn c h (fun t => { t with outerCtx := c.ctxMgr, subject := true }) (fun _ => rfl)).trans
+  exact (pres_setTxn c h (fun t => { t with outerCtx := c.ctxMgr, subject := true }) (fun _ => rfl) (fun _ => rfl)).trans
     (pres_setCtx _ (some h))
 
 theorem exitFinally_pres (c : Conn) (h : Nat) (b : Bool) : Pres c (c.exitFinally h b) := by
@@ -570,7 +636,7 @@ theorem exitFinally_pres (c : Conn) (h : Nat) (b : Bool) : Pres c (c.exitFinally
     split
     · exact pres_setCtx c _
     · exact Pres.refl c
-  exact h1.trans (pres_setTxn _ h _ (fun _ => rfl))
+  exact h1.trans (pres_setTxn _ h _ (fun _ => rfl) (fun _ => rfl))
 
 theorem commitOrRollback_pres (c : Conn) (h : Nat) : Pres c (c.commitOrRollback h).1 := by
   unfold Conn.commitOrRollback
@@ -614,7 +680,7 @@ theorem setReadUnc_pres (c : Conn) : Pres c c.setReadUnc.1 := by
 
 /-! ### close(), garbage collection, new checkouts -/
 
-def Inv (c : Conn) : Prop := RootPtr c ∧ PoolClean c.db ∧ c.db.reset ≠ .none ∧ HeldIso c.db
+def Inv (c : Conn) : Prop := WFc c ∧ PoolClean c.db ∧ c.db.reset ≠ .none ∧ HeldIso c.db
 
 theorem Pres.inv {c c' : Conn} (h : Pres c c') (hi : Inv c) : Inv c' :=
   ⟨h.root hi.1, h.db.clean hi.2.1, by rw [h.db.reset]; exact hi.2.2.1, h.db.held hi.2.1 hi.2.2.2⟩
@@ -735,11 +801,11 @@ theorem release_inv {c : Conn} (b : Bool) (hi : Inv c) (hb : b = true → c.hasD
   obtain ⟨h1, h2, h3, h4⟩ := hi
   unfold Conn.release
   cases hh : c.hasDbapi with
-  | false => simp only [Bool.false_eq_true, if_false]; exact ⟨h1, h2, h3, h4⟩
+  | false => simp only [Bool.false_eq_true, if_false]; exact ⟨wfc_congr (by rfl) (by rfl) (by rfl) h1, h2, h3, h4⟩
   | true =>
     simp only [if_true]
     obtain ⟨k1, k2, k3⟩ := checkin_clean_reset c.db b h3 (fun e => hb e hh) h2 h4
-    exact ⟨h1, k1, by rw [k2]; exact h3, k3⟩
+    exact ⟨wfc_congr (by rfl) (by rfl) (by rfl) h1, k1, by rw [k2]; exact h3, k3⟩
 
 theorem close_inv {c : Conn} (hi : Inv c) : Inv c.close.1 := by
   unfold Conn.close
@@ -756,7 +822,7 @@ theorem close_inv {c : Conn} (hi : Inv c) : Inv c.close.1 := by
       rw [e, andThen_ok]
       refine release_inv _ (hp.inv hi) ?_
       intro hact hd
-      have hroot := hi.1 t ht
+      have hroot := hi.1.1 t ht
       have e2 : c.tClose t = c.rootCloseImpl t false := by simp [Conn.tClose, hroot]
       rw [e2] at hr hd ⊢
       exact rootClose_heldClean c t false hact hr hd
@@ -774,7 +840,7 @@ theorem close_inv {c : Conn} (hi : Inv c) : Inv c.close.1 := by
 theorem gc_inv {c : Conn} (hi : Inv c) : Inv c.gc := by
   obtain ⟨_, h2, h3, h4⟩ := hi
   unfold Conn.gc
-  refine ⟨fun t ht => (by cases ht), ?_⟩
+  refine ⟨wfc_empty rfl rfl rfl, ?_⟩
   cases hh : c.hasDbapi with
   | false => simp only [Bool.false_eq_true, if_false]; exact ⟨h2, h3, h4⟩
   | true =>
@@ -784,7 +850,7 @@ theorem gc_inv {c : Conn} (hi : Inv c) : Inv c.gc := by
 
 theorem connect_inv {db : DB} (h2 : PoolClean db) (h3 : db.reset ≠ .none) (h4 : HeldIso db) :
     Inv (Conn.connect db) :=
-  ⟨fun t ht => (by cases ht), (connectRaw_shrinks db).clean h2, (by
+  ⟨wfc_empty rfl rfl rfl, (connectRaw_shrinks db).clean h2, (by
     show db.connectRaw.reset ≠ .none
     rw [(connectRaw_shrinks db).reset]; exact h3), (connectRaw_shrinks db).held h2 h4⟩
 
@@ -845,12 +911,12 @@ theorem step_inv {c : Conn} (hi : Inv c) (op : Op) : Inv (c.step op).1 := by
   | exitExc h => exact (exit_pres c h true).inv hi
   | invalidate => exact (invalidate_pres c).inv hi
   | arm p k =>
-    exact ⟨hi.1, hi.2.1, hi.2.2.1, hi.2.2.2⟩
+    exact ⟨wfc_congr (by rfl) (by rfl) (by rfl) hi.1, hi.2.1, hi.2.2.1, hi.2.2.2⟩
   | disarm =>
-    exact ⟨hi.1, hi.2.1, hi.2.2.1, hi.2.2.2⟩
+    exact ⟨wfc_congr (by rfl) (by rfl) (by rfl) hi.1, hi.2.1, hi.2.2.1, hi.2.2.2⟩
   | warm n =>
     obtain ⟨a, b, d⟩ := warm_clean n c.db hi.2.1 hi.2.2.1 hi.2.2.2
-    exact ⟨hi.1, a, b, d⟩
+    exact ⟨wfc_congr (by rfl) (by rfl) (by rfl) hi.1, a, b, d⟩
   | connect =>
     have := gc_inv hi
     exact connect_inv this.2.1 this.2.2.1 this.2.2.2
@@ -860,6 +926,61 @@ theorem step_inv {c : Conn} (hi : Inv c) (op : Op) : Inv (c.step op).1 := by
   | logToken => exact (setLogToken_pres c).inv hi
   | otherOpt => exact hi
   | tokenAuto => exact (setAutocommit_pres c).inv hi
+
+theorem release_wfc {c : Conn} (b : Bool) (hw : WFc c) : WFc (c.release b) := by
+  unfold Conn.release
+  split
+  · exact wfc_congr (by rfl) (by rfl) (by rfl) hw
+  · exact wfc_congr (by rfl) (by rfl) (by rfl) hw
+
+theorem close_wfc {c : Conn} (hw : WFc c) : WFc c.close.1 := by
+  unfold Conn.close
+  cases ht : c.transaction with
+  | none => exact release_wfc false hw
+  | some t =>
+    simp only []
+    have hp := (tClose_pres c t).root hw
+    cases hr : (c.tClose t).2 with
+    | ok =>
+      have e : c.tClose t = ((c.tClose t).1, .ok) := by rw [← hr]
+      rw [e, andThen_ok]
+      exact release_wfc _ hp
+    | _ =>
+      rw [andThen_not_ok (by rw [hr]; simp)]
+      exact hp
+
+/-- structural well-formedness of the handle table is preserved by EVERY operation -/
+theorem step_wfc {c : Conn} (hw : WFc c) (op : Op) : WFc (c.step op).1 := by
+  cases op with
+  | begin => exact (begin_pres c).root hw
+  | beginNested => exact (beginNested_pres c).root hw
+  | exec s => exact (execute_pres c _).root hw
+  | commit => exact (commit_pres c).root hw
+  | rollback => exact (rollback_pres c).root hw
+  | close => exact close_wfc hw
+  | tCommit h => exact (tCommit_pres c h).root hw
+  | tRollback h => exact (tRollback_pres c h).root hw
+  | tClose h => exact (tClose_pres c h).root hw
+  | enter h => exact (enter_pres c h).root hw
+  | exitOk h => exact (exit_pres c h false).root hw
+  | exitExc h => exact (exit_pres c h true).root hw
+  | invalidate => exact (invalidate_pres c).root hw
+  | arm p k => exact wfc_congr (by rfl) (by rfl) (by rfl) hw
+  | disarm => exact wfc_congr (by rfl) (by rfl) (by rfl) hw
+  | warm n => exact wfc_congr (by rfl) (by rfl) (by rfl) hw
+  | connect => exact wfc_empty rfl rfl rfl
+  | gc => exact wfc_empty rfl rfl rfl
+  | autocommit => exact (setAutocommit_pres c).root hw
+  | readUnc => exact (setReadUnc_pres c).root hw
+  | logToken => exact (setLogToken_pres c).root hw
+  | otherOpt => exact hw
+  | tokenAuto => exact (setAutocommit_pres c).root hw
+
+theorem run_wfc : ∀ (ops : List Op) (c : Conn), WFc c → WFc (c.run ops) := by
+  intro ops
+  induction ops with
+  | nil => intro c h; exact h
+  | cons op ops ih => intro c h; exact ih _ (step_wfc h op)
 
 theorem run_inv : ∀ (ops : List Op) (c : Conn), Inv c → Inv (c.run ops) := by
   intro ops
